@@ -613,7 +613,19 @@ fn cmd_c08(len: usize) -> (u64, Vec<String>) {
     let mut n = 0u64;
     let mut bad = vec![];
     let mut idx = vec![0usize; 0];
-    let mut extra: Vec<String> = ["foo ()", "foo (?) (equal)", "foo (re) (equal)", "x\t(glob+)", "x (no-eol)", "x (esc*)", "[a (regex)", "x (gl) (eq?)"].iter().map(|s| s.replace("\\t", "\t")).collect();
+    let mut extra: Vec<String> = ["foo ()", "foo (?) (equal)", "foo (re) (equal)", "x\t(glob+)", "x (no-eol)", "x (esc*)", "[a (regex)", "x (gl) (eq?)"].iter().map(|s| s.to_string()).collect();
+    // a structured family around the modifier: expression x separator x kind x quantifier x closing
+    for e in ["", "a", "a ", " a", "a(", "a)", "a (re)", "(", "a  ", "\u{e9}"] {
+        for w in [" ", "\t", "  ", " \t", "\u{a0}", ""] {
+            for k in ["", "re", "eq", "equal", "x", "no-eol", "esc", "(re", "regex", "glob"] {
+                for q in ["", "?", "*", "+", "??"] {
+                    for c in [")", "", "))", ") "] {
+                        extra.push(format!("{e}{w}({k}{q}{c}"));
+                    }
+                }
+            }
+        }
+    }
     loop {
         let line: String = if let Some(e) = extra.pop() { e } else {
             // next word in length-lexicographic order
@@ -650,7 +662,8 @@ fn cmd_c08(len: usize) -> (u64, Vec<String>) {
         match std::panic::catch_unwind(std::panic::AssertUnwindSafe(|| maker.parse(&rendered))) {
             Ok(Ok(y)) => {
                 let (k2, e2, o2, m2) = y.unmake();
-                if (k2.clone(), o2, m2) != (kind.clone(), opt, multi) || e2 != expr {
+                // (an equal rule with unprintable characters is written as `escaped`: same contents)
+                if !(k2 == kind || (kind == "equal" && k2 == "escaped")) || (o2, m2) != (opt, multi) || e2 != expr {
                     bad.push(format!("{{\"why\":{},\"line\":{}}}", jstr(&format!("C08: rendering {rendered:?} parses back as kind={k2} expr={:?} opt={o2} multi={m2}, was kind={kind} expr={:?} opt={opt} multi={multi}", String::from_utf8_lossy(&e2), String::from_utf8_lossy(&expr))), jstr(&line)));
                 }
             }
